@@ -253,7 +253,10 @@ def run(ctx):
     cases.sort(key=lambda c: json.dumps(c, sort_keys=True))
     total = len(cases)
     rcases = [c for c in cases if c.get("op") == "real"]
-    cases = ctx.subsample([c for c in cases if c.get("op") != "real"], 900 if q else 20000) + ctx.subsample(rcases, 120 if q else 10 ** 6)
+    def one_grid(c):
+        return c.get("op") != "real" and c["A"][0] == 960 and c["A"][4] == 960 and c["A"][1] == 0 and c["sy"] == c["dy"] and c["sx"] == c["dx"] and c["crs"] == "same"
+    same = [c for c in cases if one_grid(c)]            # one grid, one chunking: all kept
+    cases = ctx.subsample([c for c in cases if c.get("op") != "real" and not one_grid(c)], 900 if q else 20000) + same + ctx.subsample(rcases, 120 if q else 10 ** 6)
     # execution orders of the REAL graphs, chosen by TLC (TaskGraph.tla)
     shapes = ctx.pmap(_shape_any, cases)
     idx, graphs = {}, []
